@@ -606,6 +606,12 @@ def type_space(tier):
         st = make_struct([(n, small(t, n if n is not None else None)) for n, t in shape])
         structs.append((shape, st))
         nodes.append(st)
+    # every leaf type as a nameless (reserved / padding) member between two named ones: it occupies exactly its wire width
+    for name in L:
+        e = small(name)
+        if e.consumes_all:
+            continue
+        nodes.append(make_struct([("a", small("USINT", "a")), (None, e), ("z", small("UINT", "z"))]))
     # depth 2: arrays of structs, structs with arrays / nested structs, arrays of arrays
     for shape, _ in structs[:6]:
         for ln in (2, ("prefix", "UINT", 2, "class"), None):
